@@ -157,7 +157,71 @@ def boundary_pgns(seed):
     return sorted(s)
 
 
+def dynamic_worker(item):
+    """request callbacks that unsubscribe (themselves / a neighbour) from inside the callback: every other callback of the
+    addressed CA is still invoked once for that request, and the next request reaches exactly those still registered"""
+    from ..net import Bus, Stack
+    acc = Acc()
+    for k in range(3):
+        for action in ('unsub_self', 'unsub_next', 'unsub_prev'):
+            for da in (0x20, 255):
+                sc = {'kind': 'dynamic', 'k': k, 'action': action, 'da': da}
+                w = rt.World()
+                rt.activate(w)
+                try:
+                    bus = Bus(w, base_lat=1e-4)
+                    R = Stack(bus, 'R')
+                    S = Stack(bus, 'S')
+                    rca = R.add_ca(0x10, name_value=0x111)
+                    sca = S.add_ca(0x20, name_value=0x222)
+                    calls = []
+                    reg = [True, True, True]
+                    cbs = []
+                    st = {'armed': True, 'touched': None}
+
+                    def make(j):
+                        def cb(src, dest, pgn):
+                            calls.append(j)
+                            if j == k and st['armed']:
+                                st['armed'] = False
+                                t = {'unsub_self': k, 'unsub_next': (k + 1) % 3, 'unsub_prev': (k - 1) % 3}[action]
+                                st['touched'] = t
+                                if reg[t]:
+                                    sca.unsubscribe_request(cbs[t])
+                                    reg[t] = False
+                        return cb
+                    for j in range(3):
+                        cbs.append(make(j))
+                        sca.subscribe_request(cbs[j])
+                    w.run_for(0.005)
+                    probs = []
+                    for n in range(2):
+                        before = list(reg)
+                        st['touched'] = None
+                        del calls[:]
+                        rca.send_request(0, 0xFECA, da)
+                        w.run_for(0.003)
+                        for j in range(3):
+                            got = calls.count(j)
+                            if st['touched'] == j and action != 'unsub_self':
+                                if got > 1:
+                                    probs.append("request %d: callback %d invoked %d times" % (n, j, got))
+                                continue
+                            if got != (1 if before[j] else 0):
+                                probs.append("request %d to %d: request callback %d (registered: %s) was invoked %d time(s)%s"
+                                             % (n, da, j, before[j], got, (" while callback %d unsubscribes inside its call" % k) if st['touched'] is not None else ''))
+                    acc.case(repr(sc), outcome=len(probs))
+                    if probs:
+                        acc.violation("a request callback is not invoked exactly once while another one unsubscribes inside its call", sc, None, probs[:3])
+                finally:
+                    w.shutdown()
+    acc.sample({'dynamic': 'request callback k of 3 unsubscribes itself / its neighbour inside the call'})
+    return acc
+
+
 def worker(item):
+    if item[0] == 'dynamic':
+        return dynamic_worker(item)
     kind, ri, has_addr, pgns, das, seed = item
     acc = Acc()
     sc = {'kind': kind, 'responder_config': ri, 'requester_has_address': has_addr}
@@ -208,12 +272,22 @@ def run(tier, seed):
     for ri in ([1] if tier == 'quick' else [1, 3, 2]):
         for i in range(0, 1 << 18, step):
             items.append(('all_pgns', ri, True, allp[i:i + step], [0x20, 255] if tier == 'quick' else [0x20, 0x21, 0x33, 255], seed))
+    items.append(('dynamic', seed))
     return run_check(PROP, tier, seed, 'exploration', items, worker, RULE, ASSUME,
                      bounds={'pgns': '2^18', 'destinations': 256})
 
 
 def replay(rec):
     sc = rec['scenario']
+    if sc.get('kind') == 'dynamic':
+        a = dynamic_worker(('dynamic', rec.get('seed', 0)))
+        mine = [v for v in a.violations if v['scenario'] == sc]
+        if mine:
+            print("REPRODUCED: " + "; ".join(mine[0]['detail']))
+            print("VIOLATION property=%s replay=(this file)" % PROP)
+            return 1
+        print("no violation on this tree")
+        return 0
     acc = Acc()
     s = Setup(sc['responder_config'], sc['has_addr'])
     try:
